@@ -437,7 +437,7 @@ def _data_parse_csv(args, unused_options):
             continue
         if value_type(arg) != 'string':
             return None
-        lines.extend(_R_DATA_PARSE_CSV_LINES.split(arg))
+        lines.extend(line for line in _R_DATA_PARSE_CSV_LINES.split(arg) if line)
 
     # Parse the CSV
     data = list(csv.DictReader(lines, skipinitialspace=True))
